@@ -217,7 +217,11 @@ func init() {
 			}
 			for _, eco := range ecosystems {
 				for n := 0; n <= nv; n++ {
-					for k, t := range splitIf(n >= 5, rawTemplate("A", n), 8) {
+					pieces := 8
+					if n >= 7 {
+						pieces = 16 // maven's tokenizer needs > 900 s for an eighth of the 7-byte strings under load
+					}
+					for k, t := range splitIf(n >= 5, rawTemplate("A", n), pieces) {
 						out = append(out, &Config{ID: fmt.Sprintf("C06/V/%s/ascii%d/%d", eco, n, k), Pkg: zzhPkg, Func: "C06V", NoPanic: true, ScalarMergeOnly: true, Args: []ArgSpec{ArgStr(eco), ArgTmpl(t)}})
 					}
 				}
